@@ -121,6 +121,28 @@ def run_tags_chunk(chunk):
                              {"announced": new, "reference_start_version": sorted(want), "old_version_line": o.old_version})
         # a REAL (not dry) committing update told to ignore the tags and to set the version to one that already exists as a tag:
         # whatever is decided, a non-zero exit must leave every file as it was (the tag step cannot succeed: the tag exists)
+        # ... and a real committing update whose commit message template cannot be rendered (unknown placeholder)
+        if sum(map(len, served_all)) % 4 == 0:
+            world.clear_dir(".")
+            tree = c09.project(name, cfgv, "default")
+            world.write_tree(tree)
+            world.mark_repo("git")
+            fake = fakevcs.install(fakevcs.FakeVCS("git", tags_all=served_all, tags_merged=served_head, status=[], remote=None))
+            try:
+                o = world.cli("update", "--no-fetch", *P["bump"], "--commit-message", "bump {new_versio}")
+            finally:
+                fakevcs.uninstall()
+            after = world.read_tree(".")
+            st.evaluations += 1
+            st.transitions += 1
+            st.validated += 1
+            st.observe((name, pos, placement, "bad-template", o.exit, sorted(after.items())))
+            if o.exit != 0 and after != tree:
+                st.violation(f"C01:files-changed-by-failed-update:message-template-cannot-be-rendered:{name}",
+                             {"tags_case": name, "config": cfgv, "scope": "default", "bad_template": True, "tags": {x: pl for x, pl in zip(tags, placement) if pl != "absent"}},
+                             {"exit": o.exit, "effects": fake.effect_names(), "crashed": o.crashed})
+            else:
+                st.outcomes["update:refused(bad template)" if o.exit != 0 else "update:ok(bad template?)"] += 1
         cands = [t for t in served_all if c09.classify_tag(name, t) == "match" and bg.greater(t, cfgv)][:1]
         for t in cands:
             for scope in c09.SCOPES:
